@@ -8,7 +8,7 @@ from bcommon import prepare  # noqa
 
 TRUSTED = ["sequentially consistent interleaving semantics at the granularity of the cfg(nucleo_verif) yield points (between two yield points of a thread there is at most one shared access another thread can observe); weak-memory behaviour is C09's subject",
            "the scheduler harness (harness/hn/src/sched.rs) parks real threads at the yield points"]
-ASSUMPTIONS = ["histories: one matcher column; values are ids; fill callbacks write cols = 2*id+1 or panic", "layout probe: single threaded, 1-5 columns, item alignments 1..64"]
+ASSUMPTIONS = ["histories: one matcher column; values are ids; fill callbacks write cols = 2*id+1 or panic", "layout probe: single threaded, 1-5 columns, item alignments 1..64", "column probe: public Nucleo API, 1-3 columns, one pool thread, restart(false) and restart(true)"]
 
 
 def oracle(line, vals, obs):
@@ -95,6 +95,8 @@ def run(ctx, broken):
         if any(o.startswith("Y") for o in io):
             nt.add(line)
     pn, pf = bcommon.layout_probe(ctx)
+    cn, cf = bcommon.columns_probe(ctx)
+    pn, pf = pn + cn, cf + pf
     res["failures"] = pf[:20] + res["failures"][:200]
     res["evaluations"] += pn
     res["distinct_nontrivial"] = len(nt) + pn
@@ -102,7 +104,7 @@ def run(ctx, broken):
                    "panicking fills), each parked by the scheduler at every yield point (after fetch_add, before every bucket CAS, before every publication) and stepped in "
                    "random order, interleaved with get / count / snapshot probes; styles: mixed, bucket-boundary races, lying extends. Every observation is compared with the "
                    "extracted model's and checked by the spec oracle (distinct gap-free indices, no phantom / torn / vanishing items, monotone count). Non-trivial = history "
-                   "in which at least one thread was parked mid-operation. %d observations in total." % steps) + bcommon.LAYOUT_RULE + " %d probe cases." % pn
+                   "in which at least one thread was parked mid-operation. %d observations in total." % steps) + bcommon.LAYOUT_RULE + bcommon.COLUMNS_RULE + " %d probe cases." % pn
     res["samples"] = [{"history": r[0][:300], "implementation": ";".join(r[2])[:300]} for r in recs[:3]]
     res["extra"] = {"observations": steps, "layout_probe_cases": pn}
     return res
